@@ -4,6 +4,7 @@ cache later serves.  Model: `Grevm/Model/Cache.lean`.
 -/
 import Grevm.Model.Cache
 import Grevm.Lemmas.Cache
+import Grevm.Model.AccountFill
 
 namespace Grevm.Cache
 
@@ -54,3 +55,49 @@ example :
       (fun s => (serve s, s.logical)) = some (0, 0) := by decide
 
 end Grevm.Cache
+
+namespace Grevm.AccountFill
+
+/-- Invariant: an account that is cached holds the latest committed value (the database value
+    before the first commit); an account that is not cached has not been committed. -/
+def Inv {α : Type} (db : α) (s : State α) : Prop :=
+  (s.entry = none ∧ s.last = none) ∨ s.entry = some (logical db s)
+
+theorem inv_step {α : Type} (db : α) (s : State α) (op : Op α) (h : Inv db s) :
+    Inv db (step db s op) := by
+  cases op with
+  | publish =>
+    rcases h with ⟨he, hl⟩ | he
+    · right; simp [step, logical, he, hl]
+    · right; simp [step, logical, he]
+  | commit v => right; simp [step, logical]
+
+theorem inv_run {α : Type} (db : α) (ops : List (Op α)) (s : State α) (h : Inv db s) :
+    Inv db (ops.foldl (step db) s) := by
+  induction ops generalizing s with
+  | nil => exact h
+  | cons op rest ih => exact ih _ (inv_step db s op h)
+
+/-- **account_fill_coherent.** For every interleaving of account-filling reads (any number of
+    readers, each publishing the database value at any later time) with any sequence of commits,
+    the account the cache serves afterwards is the account revm's `State` serves after the same
+    commits: a late publication never replaces a committed entry. -/
+theorem account_fill_coherent {α : Type} (db : α) (ops : List (Op α)) :
+    returned db (run db ops) = logical db (run db ops) := by
+  have h := inv_run db ops init (Or.inl ⟨rfl, rfl⟩)
+  unfold returned
+  rcases h with ⟨he, hl⟩ | he
+  · simp [run, logical, he, hl]
+  · simp [run, he]
+
+/-- **blind_publish_violates** (the shape of seeded change C10e): with a blind insert, a reader
+    that fetched before a commit and publishes after it leaves the pre-block account in the
+    cache. -/
+theorem blind_publish_violates :
+    (blindRun (0 : Nat) [.commit 7, .publish]).entry = some 0 ∧
+    logical (0 : Nat) (blindRun 0 [.commit 7, .publish]) = 7 := by
+  decide
+
+example : (run (0 : Nat) [.publish, .commit 7, .publish]).entry = some 7 := by decide
+
+end Grevm.AccountFill
